@@ -224,3 +224,29 @@ func H_C15_realStoreReportsFailedWrites() {
 		zzverif.Assert(gerr == ErrDataNotAvailable, "C15.failed_store_write_creates_nothing")
 	}
 }
+
+// vStorePutRaw / vStoreGetRaw write and read the bytes stored under key i behind the store's back.
+func vStorePutRaw(st *bboltStore, i int, raw []byte) {
+	if zzverif.Symbolic() {
+		vBoltSwaps.present[i], vBoltSwaps.vals[i] = true, raw
+		return
+	}
+	err := st.db.Update(func(tx *bbolt.Tx) error { return tx.Bucket(swapBuckets).Put(h2b(vStoreKeys[i]), raw) })
+	if err != nil {
+		panic(err)
+	}
+}
+
+func vStoreGetRaw(st *bboltStore, i int) ([]byte, bool) {
+	if zzverif.Symbolic() {
+		return vBoltSwaps.vals[i], vBoltSwaps.present[i]
+	}
+	var out []byte
+	st.db.View(func(tx *bbolt.Tx) error {
+		if v := tx.Bucket(swapBuckets).Get(h2b(vStoreKeys[i])); v != nil {
+			out = append([]byte{}, v...)
+		}
+		return nil
+	})
+	return out, out != nil
+}
